@@ -111,7 +111,7 @@ func c20child(args []string) {
 	big := strings.Repeat("B", 300_000)
 	var wg sync.WaitGroup
 	deadline := time.Now().Add(1400 * time.Millisecond)
-	timed := mode == "rotkill" || mode == "contendkill" || mode == "fifokill" || mode == "crossexit"
+	timed := mode == "rotkill" || mode == "contendkill" || mode == "fifokill" || mode == "fifostall" || mode == "crossexit"
 	if mode == "crossexit" {
 		deadline = time.Now().Add(2300 * time.Millisecond) // two rotations (and their retention scans) happen, then the process just exits
 	}
@@ -183,8 +183,9 @@ func c20one(w *W, kind, layout string, G, N, k int, mode string, idx int) {
 		return
 	}
 	var fifoData []byte
+	var fifoStalls atomic.Int64
 	fifoDone := make(chan struct{})
-	if mode == "fifokill" {
+	if mode == "fifokill" || mode == "fifostall" {
 		// the target is a FIFO drained slowly by the parent: a long write stays in progress for
 		// milliseconds, so other goroutines' calls overlap it; what the reader receives is the target
 		fp := filepath.Join(dir, "t.log")
@@ -200,7 +201,7 @@ func c20one(w *W, kind, layout string, G, N, k int, mode string, idx int) {
 			}
 			defer f.Close()
 			buf := make([]byte, 32<<10)
-			nread := 0
+			nread, nextStall := 0, 0
 			for {
 				n, err := f.Read(buf)
 				fifoData = append(fifoData, buf[:n]...)
@@ -208,8 +209,16 @@ func c20one(w *W, kind, layout string, G, N, k int, mode string, idx int) {
 					return
 				}
 				time.Sleep(150 * time.Microsecond)
-				if nread++; nread == 3 || nread == 40 {
-					// the collector at the other end of the pipe stalls for a while (twice): the writer simply waits
+				// a read of 8 KiB or more: a long write is streaming through the pipe at this moment. Stall there (at most three
+				// times, 250 KB apart): the pipe fills up and the writer - and everybody queued behind it - waits
+				if total := len(fifoData); nread < 3 && total >= nextStall && (n >= 8192 || mode == "fifostall") {
+					nread++
+					nextStall = total + 250_000
+					if mode == "fifostall" {
+						nextStall = total + 100_000 // (this mode does not kill the writer: it runs its 1.4 s and exits)
+					}
+					fifoStalls.Add(1)
+					// the collector at the other end of the pipe stalls for a while (three times, each time in the middle of a long write): the writer simply waits
 					time.Sleep(600 * time.Millisecond)
 				}
 			}
@@ -245,7 +254,7 @@ func c20one(w *W, kind, layout string, G, N, k int, mode string, idx int) {
 	}
 	// read the target after the child is dead
 	var data []byte
-	if mode == "fifokill" {
+	if mode == "fifokill" || mode == "fifostall" {
 		select {
 		case <-fifoDone:
 		case <-time.After(20 * time.Second):
@@ -310,6 +319,7 @@ func c20one(w *W, kind, layout string, G, N, k int, mode string, idx int) {
 		w.Count("multi_target_runs", 1)
 	}
 	w.Eval(1)
+	w.Count("fifo_reader_stalls_during_a_long_write", fifoStalls.Load())
 	w.Count("acknowledged_calls_checked", int64(len(acked)))
 	lost := 0
 	for _, id := range acked {
@@ -387,6 +397,7 @@ func c20Worker(w *W) {
 				for r := 0; r < creps; r++ {
 					run(kind, layout, 4, 0, r, "fifokill")
 				}
+				run(kind, layout, 4, 0, 0, "fifostall")
 			}
 			if strings.HasPrefix(kind, "rolling") {
 				reps := 6
@@ -409,7 +420,7 @@ func init() {
 	register(&Prop{
 		ID: "C20", Level: "fault_enumeration", MinDistinct: 50, Worker: c20Worker,
 		Rule: "crash points: a child process logs through a synchronous logger to {File appender, RollingFile appender, Console appender (stdout redirected to a file), logger-level layout + File appender, one logger (with and without its own layout) over two File appenders and a RollingFile appender - the line must be in all three targets -, a File appender shared with an asynchronous logger that serves another tag, File logger, RollingFile logger (separate), Console logger} x {Text, JSON} from 1 or 4 goroutines (goroutine 0 alternates 300 KB lines so that others arrive while a long write is in progress), acknowledging every returned call on a pipe; " +
-			"the process is destroyed right after acknowledgement #k for k on a 10-point grid over 1..40 (thorough: every k) by SIGKILL from inside, by os.Exit(0) without Destroy, and by SIGKILL from the parent after it has read k acknowledgements; in 'contended' runs the process kills itself the moment a call returns while goroutine 0 is still inside one of its long log calls (for the three plain-file kinds also with the target replaced by a FIFO that the parent drains slowly, so that the long write stays in progress for milliseconds); for rolling kinds additional runs cross a real 1 s boundary and SIGKILL the process from inside rotate() at one of three guarded yield points after lingering there 25 ms while the other goroutines keep logging and acknowledging. " +
+			"the process is destroyed right after acknowledgement #k for k on a 10-point grid over 1..40 (thorough: every k) by SIGKILL from inside, by os.Exit(0) without Destroy, and by SIGKILL from the parent after it has read k acknowledgements; in 'contended' runs the process kills itself the moment a call returns while goroutine 0 is still inside one of its long log calls (for the three plain-file kinds also with the target replaced by a FIFO that the parent drains slowly, so that the long write stays in progress for milliseconds; in a further mode the reader stalls three times for 600 ms while the writers run and exit normally); for rolling kinds additional runs cross a real 1 s boundary and SIGKILL the process from inside rotate() at one of three guarded yield points after lingering there 25 ms while the other goroutines keep logging and acknowledging. " +
 			"Rolling kinds are also run across two real boundaries with maxAge in {24, 999999, 100000, 1} hours and then simply exit (retention scans have run in between). Oracle (parent, after the child is dead): every acknowledged id has a complete '\\n'-terminated line ending in the event's last field in the target. Non-trivial/distinct = distinct (kind, layout, goroutines, crash mode, k) crash points at which all acknowledged lines were present.",
 		Assumptions: []string{"'in the target' means in the file as seen by another process (page cache), not on stable storage: the statement is about user-space buffering, not fsync", "acknowledgements are written after the log call returned, under a mutex together with the crash decision"},
 		Run: func(d *D) {
